@@ -236,6 +236,10 @@ class Ctx:
         return bool(cond)
 
     def crash(self, clause: str, case: Any, exc: BaseException) -> None:
+        from vlib.timeouts import TimeLimit
+
+        if isinstance(exc, TimeLimit):
+            raise exc  # a wall-clock limit is inconclusive, never a violation: let the runner count it
         where = lib_frame(exc.__traceback__) or "?"
         self.fail(clause, case, f"{type(exc).__name__}: {exc}", kind=type(exc).__name__, where=where)
 
